@@ -84,6 +84,10 @@ void stopMonitor();
 // harness-defined progress counter the watchdog prints (optional)
 void noteProgress();
 
+// Fault injection: the next pthread_create call made by the calling thread fails with EAGAIN (resource exhaustion).
+void failNextCreate();
+uint64_t createFailuresInjected();
+
 // CPU affinity of the whole process: n = number of CPUs to use (0 = all)
 void pinCpus(int n, int base = 0);   // CPUs base, base+1, ... (mod #cpus)
 
